@@ -795,6 +795,85 @@ def _loop_over_filter(s):
     return new
 
 
+def _exitstack_rollback(s):
+    """the try/except-BaseException form of an ExitStack that is armed with callbacks first, disarmed with pop_all() last and not
+    otherwise touched; None when the statement is not of that form"""
+    if len(s.items) != 1 or not isinstance(s.items[0].optional_vars, ast.Name):
+        return None
+    ce = s.items[0].context_expr
+    if not (isinstance(ce, ast.Call) and ast.unparse(ce.func) in ("ExitStack", "contextlib.ExitStack") and not ce.args and not ce.keywords):
+        return None
+    es = s.items[0].optional_vars.id
+
+    def es_call(st, attr):
+        return isinstance(st, ast.Expr) and isinstance(st.value, ast.Call) and isinstance(st.value.func, ast.Attribute) and st.value.func.attr == attr and isinstance(st.value.func.value, ast.Name) and st.value.func.value.id == es
+
+    body = list(s.body)
+    if len(body) < 3 or not es_call(body[-1], "pop_all") or body[-1].value.args or body[-1].value.keywords:
+        return None
+    k = 0
+    while k < len(body) and es_call(body[k], "callback"):
+        k += 1
+    if k == 0:
+        return None
+    callbacks, mid = body[:k], body[k:-1]
+    if not mid:
+        return None
+    stored = set()
+    for st in mid:
+        for n in ast.walk(st):
+            if isinstance(n, ast.Name) and n.id == es:
+                return None
+            if isinstance(n, ast.Name) and isinstance(n.ctx, ast.Store):
+                stored.add(n.id)
+            if isinstance(n, (ast.Return, ast.Break, ast.Continue, ast.Yield, ast.YieldFrom, ast.Await)):
+                return None
+    undo = []
+    for cb in reversed(callbacks):                       # callbacks run last-in first-out
+        c = cb.value
+        if not c.args or c.keywords and any(kw.arg is None for kw in c.keywords):
+            return None
+        for a in list(c.args) + [kw.value for kw in c.keywords]:
+            if isinstance(a, ast.Starred):
+                return None
+            for n in ast.walk(a):
+                if isinstance(n, ast.Call) or isinstance(n, ast.Name) and n.id in stored:
+                    return None
+        undo.append(_loc(ast.Expr(value=_loc(ast.Call(func=c.args[0], args=list(c.args[1:]), keywords=list(c.keywords)), cb)), cb))
+    handler = _loc(ast.ExceptHandler(type=_loc(ast.Name(id="BaseException", ctx=ast.Load()), s), name=None, body=undo + [_loc(ast.Raise(exc=None, cause=None), s)]), s)
+    return _loc(ast.Try(body=mid, handlers=[handler], orelse=[], finalbody=[]), s)
+
+
+def _thread_try_sentinel(stmts):
+    """`try: v = E  except X: v = S` + `if v is S: A else: B`  (S a private sentinel, v not read in A)  ==
+    `try: v = E  except X: A  else: B`: the handler is the only place v can have become S"""
+    S_ = _SENTINELS[-1] if _SENTINELS else set()
+    if not S_:
+        return stmts
+    out = list(stmts)
+    i = 0
+    while i + 1 < len(out):
+        a, b = out[i], out[i + 1]
+        if isinstance(a, ast.Try) and not a.orelse and not a.finalbody and len(a.handlers) == 1 and len(a.body) == 1 and isinstance(a.body[0], ast.Assign) and len(a.body[0].targets) == 1 and isinstance(a.body[0].targets[0], ast.Name) and isinstance(b, ast.If):
+            v = a.body[0].targets[0].id
+            h = a.handlers[0]
+            t = b.test
+            if len(h.body) == 1 and isinstance(h.body[0], ast.Assign) and len(h.body[0].targets) == 1 and isinstance(h.body[0].targets[0], ast.Name) and h.body[0].targets[0].id == v and isinstance(h.body[0].value, ast.Name) and h.body[0].value.id in S_ and isinstance(t, ast.Compare) and len(t.ops) == 1 and isinstance(t.ops[0], (ast.Is, ast.IsNot)) and isinstance(t.left, ast.Name) and t.left.id == v and isinstance(t.comparators[0], ast.Name) and t.comparators[0].id == h.body[0].value.id and not _not_a_sentinel_value(a.body[0].value, S_):
+                hit, miss = (b.body, b.orelse) if isinstance(t.ops[0], ast.Is) else (b.orelse, b.body)
+                if not any(isinstance(n, ast.Name) and n.id == v and isinstance(n.ctx, ast.Load) for st in hit for n in ast.walk(st)):
+                    h.body = list(hit) or [_loc(ast.Pass(), h)]
+                    a.orelse = list(miss)
+                    out[i:i + 2] = [canon_stmt(a)]
+                    continue
+        i += 1
+    return out
+
+
+def _not_a_sentinel_value(e, sentinels):
+    """the expression could itself be one of the sentinels (a plain name that is one)"""
+    return isinstance(e, ast.Name) and e.id in sentinels
+
+
 def _split_dict_merge(stmts):
     """`v = <fresh dict> | {k1: e1, ..}` (constant keys)  ->  `v = <fresh dict>; v[k1] = e1; ..`  (the dict on the left is a
     comprehension, a display or `dict(..)`: nobody else holds it, updating it in place is the merge)"""
@@ -1520,6 +1599,8 @@ def canon_block(stmts):
     res = [_bool_if_deep(s) for s in res]
     if len(res) > 1:
         res = [s for s in res if not isinstance(s, ast.Pass)] or res[:1]
+    if len(res) > 1 and any(isinstance(x, ast.Try) for x in res):
+        res = _thread_try_sentinel(res)
     if len(res) > 1 and any(isinstance(x, ast.Assign) and isinstance(x.value, ast.Call) and isinstance(x.value.func, ast.Attribute) and x.value.func.attr == "get" and len(x.value.args) == 2 for x in res):
         res2 = _sentinel_lookup(res)
         if len(res2) != len(res):
@@ -2653,8 +2734,84 @@ def _tail_return_loop(fn):
             first.body = [_loc(ast.Break(), first.body[0])]
 
 
+def _join_loops(fnode):
+    """B = StringIO(); SEP = ''; for T in X: B.write(SEP); B.write(E); SEP = C   ...B.getvalue()...
+       ==  B = C.join([E for T in X])  ...B...     (B and SEP local, B otherwise only read through getvalue())"""
+    def own(node):
+        for ch in ast.iter_child_nodes(node):
+            if isinstance(ch, (ast.FunctionDef, ast.AsyncFunctionDef, ast.Lambda, ast.ClassDef)):
+                continue
+            yield ch
+            yield from own(ch)
+
+    def is_write(st, buf, arg_name=None):
+        if not (isinstance(st, ast.Expr) and isinstance(st.value, ast.Call) and isinstance(st.value.func, ast.Attribute) and st.value.func.attr == "write" and isinstance(st.value.func.value, ast.Name) and st.value.func.value.id == buf and len(st.value.args) == 1 and not st.value.keywords):
+            return False
+        return arg_name is None or isinstance(st.value.args[0], ast.Name) and st.value.args[0].id == arg_name
+
+    changed = False
+    blocks = [fnode.body] + [getattr(n, f) for n in own(fnode) for f in ("body", "orelse", "finalbody") if isinstance(getattr(n, f, None), list) and not isinstance(n, (ast.FunctionDef, ast.AsyncFunctionDef, ast.Lambda, ast.ClassDef))]
+    for block in blocks:
+        for i in range(len(block) - 2):
+            trio = block[i:i + 3]
+            loop = trio[2]
+            if not (isinstance(loop, ast.For) and not loop.orelse and len(loop.body) == 3):
+                continue
+            inits = {}
+            for st in trio[:2]:
+                if isinstance(st, ast.Assign) and len(st.targets) == 1 and isinstance(st.targets[0], ast.Name):
+                    inits[st.targets[0].id] = st.value
+            if len(inits) != 2:
+                continue
+            bufs = [k for k, v in inits.items() if isinstance(v, ast.Call) and ast.unparse(v.func) in ("StringIO", "io.StringIO") and not v.args and not v.keywords]
+            seps = [k for k, v in inits.items() if isinstance(v, ast.Constant) and v.value == ""]
+            if len(bufs) != 1 or len(seps) != 1:
+                continue
+            buf, sep = bufs[0], seps[0]
+            b0, b1, b2 = loop.body
+            if not (is_write(b0, buf, sep) and is_write(b1, buf) and isinstance(b2, ast.Assign) and len(b2.targets) == 1 and isinstance(b2.targets[0], ast.Name) and b2.targets[0].id == sep and isinstance(b2.value, (ast.Constant, ast.Name))):
+                continue
+            piece = b1.value.args[0]
+            if any(isinstance(n, ast.Name) and n.id in (buf, sep) for n in ast.walk(piece)):
+                continue
+            if isinstance(b2.value, ast.Name) and any(isinstance(n, ast.Name) and n.id == b2.value.id and isinstance(n.ctx, ast.Store) for n in own(fnode)):
+                continue
+            inside = {id(n) for st in trio for n in ast.walk(st)}
+            ok = True
+            reads = []
+            for n in own(fnode):
+                if id(n) in inside:
+                    continue
+                if isinstance(n, ast.Name) and n.id == sep:
+                    ok = False
+                if isinstance(n, ast.Call) and isinstance(n.func, ast.Attribute) and n.func.attr == "getvalue" and isinstance(n.func.value, ast.Name) and n.func.value.id == buf and not n.args and not n.keywords:
+                    reads.append(n)
+            n_names = sum(1 for n in own(fnode) if id(n) not in inside and isinstance(n, ast.Name) and n.id == buf)
+            if not ok or n_names != len(reads) or not reads:
+                continue
+            comp = _loc(ast.ListComp(elt=piece, generators=[ast.comprehension(target=loop.target, iter=loop.iter, ifs=[], is_async=0)]), loop)
+            joined = _loc(ast.Call(func=_loc(ast.Attribute(value=b2.value, attr="join", ctx=ast.Load()), loop), args=[comp], keywords=[]), loop)
+            new = _loc(ast.Assign(targets=[_loc(ast.Name(id=buf, ctx=ast.Store()), loop)], value=joined), loop)
+            ast.fix_missing_locations(new)
+            block[i:i + 3] = [new]
+
+            class _R(ast.NodeTransformer):
+                def visit_Call(self, node):
+                    self.generic_visit(node)
+                    if any(node is r for r in reads):
+                        return ast.copy_location(ast.Name(id=buf, ctx=ast.Load()), node)
+                    return node
+            for st in fnode.body:
+                _R().visit(st)
+            changed = True
+            break
+    return changed
+
+
 def _canon_function(s):
     _tail_return_loop(s)
+    while _join_loops(s):
+        pass
     _subst_pure_walrus(s)
     # a keyword-only marker on a private function only restricts how it may be called: for the analysis the parameters
     # are ordinary ones (every call site of a valid program passes them by name)
@@ -2741,6 +2898,11 @@ def _canon_stmt(s):
         shell = _loc(ast.If(test=_loc(ast.Constant(value=True), s), body=pre + list(s.body), orelse=[]), s)
         ast.fix_missing_locations(shell)
         return _canon_stmt(shell)
+    elif isinstance(s, ast.With) and _exitstack_rollback(s) is not None:
+        # with ExitStack() as es: es.callback(F, a..); BODY; es.pop_all()  ==  try: BODY except BaseException: F(a..); raise
+        new_try = _exitstack_rollback(s)
+        ast.fix_missing_locations(new_try)
+        return _canon_stmt(new_try)
     elif isinstance(s, (ast.With, ast.AsyncWith)):
         _TRY_DEPTH[0] += 1
         try:
@@ -2765,6 +2927,13 @@ def _canon_stmt(s):
         if s.orelse and s.handlers and _cannot_raise(s.orelse, package_handlers=pkg_only):
             s.body = canon_block(list(s.body) + list(s.orelse))
             s.orelse = []
+        # every handler leaves the block: what is in `else` simply follows the statement
+        if s.orelse and s.handlers and not s.finalbody and all(_exits(h.body) for h in s.handlers):
+            tail = list(s.orelse)
+            s.orelse = []
+            shell = _loc(ast.If(test=_loc(ast.Constant(value=True), s), body=[s] + tail, orelse=[]), s)
+            ast.fix_missing_locations(shell)
+            return shell
         # `except E [as e]: raise [e]` changes nothing (but the traceback): a try with only such handlers is its body
         def _noop(h):
             if len(h.body) != 1 or not isinstance(h.body[0], ast.Raise) or h.body[0].cause is not None:
@@ -2865,6 +3034,82 @@ def _canonicalise(tree):
     tree = split_cases(tree)
     if ast.dump(tree) != before:
         tree = _canonicalise_once(tree)
+    return tree
+
+
+def _fold_dict_of_pairs(tree):
+    """module level: `X = dict(P)` with P a tuple display of (constant key, value) pairs -- written in place or bound once
+    to a private module-level name -- is the dict display with these rows; the private name is dead when it was only
+    there to be converted"""
+    binds = {}
+    for st in tree.body:
+        if isinstance(st, ast.Assign) and len(st.targets) == 1 and isinstance(st.targets[0], ast.Name):
+            binds.setdefault(st.targets[0].id, []).append(st)
+
+    def pairs(e):
+        if isinstance(e, ast.Name) and len(binds.get(e.id, ())) == 1 and isinstance(binds[e.id][0].value, ast.Tuple):
+            e = binds[e.id][0].value
+        if isinstance(e, (ast.Tuple, ast.List)) and e.elts and all(isinstance(x, ast.Tuple) and len(x.elts) == 2 and isinstance(x.elts[0], ast.Constant) and isinstance(x.elts[1], (ast.Name, ast.Attribute, ast.Constant)) for x in e.elts):
+            if len({x.elts[0].value for x in e.elts}) == len(e.elts):
+                return e
+        return None
+
+    changed = set()
+    for st in tree.body:
+        if isinstance(st, ast.Assign) and isinstance(st.value, ast.Call) and isinstance(st.value.func, ast.Name) and st.value.func.id == "dict" and len(st.value.args) == 1 and not st.value.keywords:
+            src = st.value.args[0]
+            if isinstance(src, ast.List):
+                continue  # a list could have been aliased and mutated only when named; written in place it is handled below
+            e = pairs(src)
+            if e is None:
+                continue
+            idx = tree.body.index(st)
+            if isinstance(src, ast.Name) and tree.body.index(binds[src.id][0]) > idx:
+                continue
+            st.value = _loc(ast.Dict(keys=[copy.deepcopy(x.elts[0]) for x in e.elts], values=[copy.deepcopy(x.elts[1]) for x in e.elts]), st.value)
+            if isinstance(src, ast.Name):
+                changed.add(src.id)
+    if changed:
+        loads = {}
+        for n in ast.walk(tree):
+            if isinstance(n, ast.Name) and isinstance(n.ctx, ast.Load):
+                loads[n.id] = loads.get(n.id, 0) + 1
+        exported = set()
+        for st in tree.body:
+            if isinstance(st, ast.Assign) and any(isinstance(t, ast.Name) and t.id == "__all__" for t in st.targets):
+                exported |= {x.value for x in ast.walk(st.value) if isinstance(x, ast.Constant) and isinstance(x.value, str)}
+        tree.body = [st for st in tree.body if not (isinstance(st, ast.Assign) and len(st.targets) == 1 and isinstance(st.targets[0], ast.Name) and st.targets[0].id in changed and st.targets[0].id.startswith("_") and not st.targets[0].id.startswith("__") and st.targets[0].id not in exported and loads.get(st.targets[0].id, 0) == 0)]
+        ast.fix_missing_locations(tree)
+    return tree
+
+
+def _inline_bound_formats(tree):
+    """module level: `_q = '"{}"'.format` (private, bound once, only ever called) -- `_q(x)` is `'"{}"'.format(x)`"""
+    cands = {}
+    for st in tree.body:
+        if isinstance(st, ast.Assign) and len(st.targets) == 1 and isinstance(st.targets[0], ast.Name) and st.targets[0].id.startswith("_") and not st.targets[0].id.startswith("__") and isinstance(st.value, ast.Attribute) and st.value.attr == "format" and isinstance(st.value.value, ast.Constant) and isinstance(st.value.value.value, str):
+            cands[st.targets[0].id] = st
+    if not cands:
+        return tree
+    called = {id(n.func) for n in ast.walk(tree) if isinstance(n, ast.Call) and isinstance(n.func, ast.Name) and n.func.id in cands}
+    for n in ast.walk(tree):
+        if isinstance(n, ast.Name) and n.id in cands and id(n) not in called and not (isinstance(n.ctx, ast.Store) and any(n is c.targets[0] for c in cands.values())):
+            cands.pop(n.id, None)
+        if isinstance(n, (ast.Global, ast.Nonlocal)):
+            for nm in n.names:
+                cands.pop(nm, None)
+    for st in tree.body:
+        if isinstance(st, ast.Assign) and any(isinstance(t, ast.Name) and t.id == "__all__" for t in st.targets):
+            for x in ast.walk(st.value):
+                if isinstance(x, ast.Constant):
+                    cands.pop(x.value, None)
+    if not cands:
+        return tree
+    for n in ast.walk(tree):
+        if isinstance(n, ast.Call) and isinstance(n.func, ast.Name) and n.func.id in cands:
+            n.func = copy.deepcopy(cands[n.func.id].value)
+    tree.body = [st for st in tree.body if not any(st is c for c in cands.values())]
+    ast.fix_missing_locations(tree)
     return tree
 
 
@@ -3129,7 +3374,9 @@ def _canonicalise_once(tree):
             _CAST_NAMES[0] |= {a.asname or a.name for a in n.names if a.name == "cast"}
         elif isinstance(n, ast.Import):
             _CAST_NAMES[1] |= {a.asname or a.name for a in n.names if a.name in ("typing", "typing_extensions")}
+    tree = _fold_dict_of_pairs(tree)
     tree = _fold_table_comprehensions(tree)
+    tree = _inline_bound_formats(tree)
     tree = ExprCanon().visit(tree)
     tree = _Tests().visit(tree)
     tree.body = [canon_stmt(s) for s in tree.body]
